@@ -14,12 +14,19 @@ THEOREMS = TB.THEOREMS_C02 + [
 ]
 PARTIAL = ['every asset class of the property has a refinement theorem (storages in plain-LP form, transports, extended transports with takes, one- and two-variable contracts with takes, multi-commodity contracts, empty windows); '
            'explicit hypotheses: two-variable contract needs extra costs >= 0 and discount factors >= 0 (machine-checked witness Ex.ec_nonneg_needed that it cannot be dropped; the constructor does not check it), take rows need pairwise different steps of the window (IdxInj, evaluated per case) and an extended transport two different nodes; '
-           'the MIP storage options (no_simult_in_out, max_store_duration) are outside the textbook spec and covered under C05; the optimum itself is compared with the independent reference LP by the oracle (portfolio_refines gives equal upper bounds of the value sets, not the solver)']
+           'the MIP storage options (no_simult_in_out, max_store_duration) are outside the textbook spec and covered under C05; the optimum itself is compared with the independent reference LP by the oracle (portfolio_refines gives equal upper bounds of the value sets, not the solver)',
+           'transports: transport_refines / ext_transport_refines tie the code to the SIGNED textbook transport of Spec/Textbook.lean (one flow f of either sign, -f / +eff*f); that form is the physical line (delivered = eff x sent in either direction: the reference LP of the oracle, with a forward and a backward part) only under the hypothesis "no negative capacity on the window, or efficiency 1", '
+           'which is evaluated per case (observed.hypotheses_failing: forward-or-lossless:<name>; feature hyp-outside:transport-reversed-with-loss); outside it the code follows the signed form and NOT the physical line (finding F-02c, shown by the probe stream `reversed`)']
+MODELLED = ['the equivalence of the signed textbook transport (Lean) with the physical two-part line (reference LP) under min_cap >= 0 or efficiency = 1 is argued in harness/comp/textbook.py (the backward part is fixed at 0, resp. the two forms have the same optimum) and exercised by every transport case, not proved in Lean']
 COMPONENTS = TB.COMPONENTS_C02
-RULE = ('random portfolios of contracts (spread, time-varying capacities in all parameter forms, min/max take), transports (efficiency, costs, both directions), extended transports, storages (efficiency, start/end level, inflow, three costs, two nodes), multi-commodity contracts; windows, wacc per asset, units, time zones / DST; '
-        'per case: independent textbook LP (scipy/HiGHS over physical quantities, built from the scenario only) vs eaopack optimum; eaopack dispatch mapped to physical quantities and checked against the textbook constraints; second set-up on the same objects; plus builder correspondence cases (contracts, storages); '
+RULE = ('random portfolios of contracts (spread, time-varying capacities in all parameter forms, min/max take), transports (efficiency and costs with capacities >= 0; capacities <= 0, i.e. used from the second to the first node, with costs and efficiency 1), extended transports, storages (efficiency, start/end level, inflow, three costs, two nodes), multi-commodity contracts; windows, wacc per asset, units, time zones / DST; '
+        'per case: independent textbook LP (scipy/HiGHS over physical quantities, built from the scenario only; a transport is a line with a forward and a backward part, each >= 0, each delivering efficiency x what is sent, costs per unit sent) vs eaopack optimum; eaopack dispatch mapped to physical quantities and checked against the textbook constraints; second set-up on the same objects; plus builder correspondence cases (contracts, storages); '
+        'probe stream `reversed` (quick: 55 cases): a line with efficiency in (0,1) between two priced nodes, Transport or ExtendedTransport (takes), capacities <= 0 / of both signs (then without costs) / >= 0 as control, prices around the two thresholds at which the reversed flow pays, costs, window, wacc: '
+        'a violation (value or dispatch) that disappears when the reference reproduces eaopack\'s factors for the reversed flow (-1 / +efficiency on one signed variable) carries the facts kind=reversed_transport_gain, transports, efficiency, eao_value, physical_value (finding F-02c); '
         'non-trivial = solved with non-zero value and at least one non-market asset dispatched; distinct by case hash')
 ASSUMPTIONS = ['values compared with tolerance 2e-6 relative, constraints 1e-6; the reference LP is part of the trusted base of the oracle (not of the theorems)',
+               'harness.gen.gen_transport draws 20 % of the transports with capacities [-c, 0] and, independently, an efficiency from {0.25, 0.5, 0.75, 0.875, 1, 1.5}; in the general streams (textbook, grouped, scaled) such a transport with a negative capacity is kept lossless (efficiency set to 1, comp/textbook.forward_or_lossless), because with a negative capacity and efficiency != 1 eaopack does not describe a physical line (known finding F-02c); reversed lossy lines are drawn by the probe stream `reversed` only; capacities of both signs occur only there and only without costs (eaopack refuses them with costs: NotImplementedError, "use two transport assets")',
+               'reading of a transport: capacities bound the volume SENT per direction, costs are paid per unit sent, takes of an extended transport act on the net volume leaving the first node (forward sent minus backward delivered); for capacities >= 0 this is the documented forward reading',
                'eaopack leaves the holding cost of the start level and of accumulated inflow out of its value (documented in the Storage docstring): V_eaopack = V_textbook + K with K computed from the parameters']
 EXPLANATION = 'textbook specification EAO/Spec/Textbook.lean (meant to be read); per-asset refinement theorems + composition theorem portfolio_refines; oracle: independent reference LP on the real code'
 
@@ -44,6 +51,9 @@ def scenarios(seed, tier):
         if i % 4 == 3 and not any(f.startswith('malformed') for f in c.get('features', [])):
             c = ST.focus_holding(c, r1)
         yield 'st%d' % i, {'stream': 'storage', 'case': c}
+    # probe: lines with losses whose capacities allow the flow from the second to the first node (finding F-02c)
+    for i in range(n // 8):
+        yield 'rv%d' % i, {'stream': 'reversed', 'case': TB.gen_reversed_case(random.Random(rnd.getrandbits(48)))}
 
 
 def _grouping(scn, rnd):
@@ -132,8 +142,10 @@ def run_case(c, drv):
                                             'facts': {'what': 'value', 'wrapped': True, 'diff': float(rw['res'].value) - v_ref}})
             except Exception as e:
                 r['violations'].append({'oracle': 'textbook', 'detail': 'assets wrapped into a structured asset with its own window: %s: %s' % (type(e).__name__, str(e)[:150]), 'facts': {'what': 'value', 'wrapped': True, 'error': impl.err_class(e)}})
-    elif c['stream'] == 'textbook':
+    elif c['stream'] in ('textbook', 'reversed'):
         r = TB.run_case(c['case'], drv)
+        if c['stream'] == 'reversed':
+            r.setdefault('features', []).append('reversed:%s' % c['case'].get('probe', {}).get('direction'))
     elif c['stream'] == 'contract':
         rec = CT.run_case(c['case'], drv)
         r = {'evaluated': 1, 'nontrivial': rec.get('nvars', 0) > 0, 'features': rec.get('features', []), 'violations': [],
